@@ -575,5 +575,13 @@ def rule_kernel_shared(ck):
     c02.rule_generators(ck)
 
 
+def rule_counts_shared(ck):
+    """per-cell event counts agree with the partition: duplicate-safe accumulation, no memoised indices (shared C03-D2/D6)."""
+    from . import c03
+    ck.clause('shared C03-D2, C03-D6 (per-cell counts)')
+    c03.rule_accumulation(ck)
+    c03.rule_pure_gridding(ck)
+
+
 RULES = [rule_partition, rule_who, rule_sentinel, rule_mask_polarity, rule_midpoints, rule_lattice_step, rule_single_edge,
-         rule_kernel_shared]
+         rule_kernel_shared, rule_counts_shared]
